@@ -241,7 +241,9 @@ pub fn str_to_dec(lit: &str) -> Result<(i128, isize), ParseDecimalError> {
     if lit.is_empty() {
         return Err(ParseDecimalError::Invalid);
     }
+    let len_with_leading_zeroes = lit.len();
     lit.skip_leading_zeroes();
+    let has_leading_zeroes = lit.len() < len_with_leading_zeroes;
     if lit.is_empty() {
         // There must have been atleast one zero. Ignore sign.
         return Ok((0, 0));
@@ -259,7 +261,7 @@ pub fn str_to_dec(lit: &str) -> Result<(i128, isize), ParseDecimalError> {
         }
     }
     let n_digits = n_int_digits + n_frac_digits;
-    if n_digits == 0 {
+    if n_digits == 0 && !has_leading_zeroes {
         return Err(ParseDecimalError::Invalid);
     }
     // check for overflow
